@@ -256,7 +256,7 @@ func vspecAckType(s message.Type) bool {
 //@   requires len(msg.mtypeflags) == 1 && len(msg.dbuf) <= 268435460
 //@   ensures[C09:will] err == nil ==> vdefWill(s) && s.initted && s.topics != nil
 //@   ensures[C09:rebuilt] err == nil ==> fresh(s.Cmsg) && fresh(arr(s.cbuf)) && arr(s.Cmsg.dbuf) == arr(s.cbuf)
-//@   modifies fields(s), msg.remlen, msg.dirty, heap("GF.clock"), heap("GF.mlockedAt"), heap("GF.encn"), heap("GF.encarr"), heap("GF.encoff"), heap("GF.encAt")
+//@   modifies fields(s), freshobjs(message.header), freshobjs(message.ConnectMessage), freshobjs(message.PublishMessage), freshelems(byte), msg.remlen, msg.dirty, heap("GF.clock"), heap("GF.mlockedAt"), heap("GF.encn"), heap("GF.encarr"), heap("GF.encoff"), heap("GF.encAt")
 
 //@ func (*Session).Update
 //@   results err
@@ -265,7 +265,7 @@ func vspecAckType(s message.Type) bool {
 //@   requires len(msg.mtypeflags) == 1 && len(msg.dbuf) <= 268435460
 //@   ensures[C09:will] err == nil ==> vdefWill(s)
 //@   ensures[C09:rebuilt] err == nil ==> fresh(s.Cmsg) && fresh(arr(s.cbuf)) && arr(s.Cmsg.dbuf) == arr(s.cbuf)
-//@   modifies s.cbuf, s.Cmsg, s.Will, msg.remlen, msg.dirty, heap("GF.clock"), heap("GF.mlockedAt"), heap("GF.encn"), heap("GF.encarr"), heap("GF.encoff"), heap("GF.encAt")
+//@   modifies s.cbuf, s.Cmsg, s.Will, freshobjs(message.header), freshobjs(message.ConnectMessage), freshobjs(message.PublishMessage), freshelems(byte), msg.remlen, msg.dirty, heap("GF.clock"), heap("GF.mlockedAt"), heap("GF.encn"), heap("GF.encarr"), heap("GF.encoff"), heap("GF.encAt")
 
 // ---------------------------------------------------------------- the session store (C10)
 // Ghost view of the store: gfield(id, "sess") is the session kept under client identifier id (0: none). The frame
